@@ -1,12 +1,14 @@
 //! Checks whose code under test is `sciparse` only (no FFI ⇒ also runnable under Miri/ASan).
 use vmon::{Args, Mon};
 
+mod c12;
 mod c15;
 
 fn main() {
     let args = Args::parse();
     let mut mon = Mon::new();
     let (rule, assumptions): (String, Vec<&'static str>) = match args.prop.as_str() {
+        "C12" => c12::run(&args, &mut mon),
         "C15" => c15::run(&args, &mut mon),
         other => panic!("chk-codec does not implement {other}"),
     };
